@@ -304,6 +304,28 @@ fn known_shape(case: &Case) -> Option<String> {
             return sig;
         }
     }
+    // two IN lists over the same needle where the needle may be NULL or a list holds a NULL item: IN-list
+    // intersection / union / except fold to constants ignoring NULLs
+    {
+        let mut lists: Vec<(&E, bool)> = vec![];
+        e.visit(&mut |n| {
+            if let E::InList { e, list, .. } = n {
+                let needle_not_null = match e.as_ref() {
+                    E::Col(i) => !case.cols[*i as usize].nullable,
+                    E::Lit(_, v) => !v.is_null(),
+                    _ => false,
+                };
+                lists.push((e.as_ref(), !needle_not_null || list.iter().any(|x| matches!(x, E::Lit(_, V::Null)))));
+            }
+        });
+        for (i, (a, an)) in lists.iter().enumerate() {
+            for (b, bn) in lists.iter().skip(i + 1) {
+                if a == b && (*an || *bn) {
+                    return Some("inlist-algebra-null".to_string());
+                }
+            }
+        }
+    }
     // CAST(decimal AS integer) compared with something: cast unwrapping of a non-injective cast
     {
         let tys: Vec<Ty> = case.cols.iter().map(|c| c.ty).collect();
@@ -325,23 +347,100 @@ fn known_shape(case: &Case) -> Option<String> {
             return sig;
         }
     }
-    // TRY_CAST(x) <cmp> literal / TRY_CAST(x) IN (literals): cast unwrapping
-    e.visit(&mut |n| {
-        let is_tc = |x: &E| matches!(x, E::Cast { try_: true, .. });
-        let is_lit = |x: &E| matches!(x, E::Lit(..));
-        let hit = match n {
-            // (the other operand may become a literal through folding or a guarantee)
-            E::Bin(op, l, r) if op.is_cmp() || matches!(op, Op::Distinct | Op::NotDistinct) => is_tc(l) || is_tc(r),
-            E::InList { e, list, .. } => is_tc(e) && !list.is_empty() && list.iter().all(is_lit),
-            E::Between { e, .. } => is_tc(e),
-            _ => false,
-        };
-        if hit && sig.is_none() {
-            sig = Some("unwrap-try-cast".to_string());
+    // a TRY_CAST that can yield NULL for a non-NULL input, anywhere (other rewrites can move it next to a literal)
+    {
+        let tys: Vec<Ty> = case.cols.iter().map(|c| c.ty).collect();
+        e.visit(&mut |n| {
+            if let E::Cast { try_: true, e: inner, to } = n {
+                let from = ty_of(inner, &|i| tys[i as usize]);
+                let infallible = to.is_str()
+                    || (from == Ty::Bool && to.is_int())
+                    || (from.is_int() && to.is_float())
+                    || (from == Ty::F32 && *to == Ty::F64)
+                    || match (from.int_range(), to.int_range()) {
+                        (Some((a, b)), Some((c, d))) => c <= a && b <= d,
+                        _ => false,
+                    };
+                if !infallible && sig.is_none() {
+                    sig = Some("unwrap-try-cast".to_string());
+                }
+            }
+        });
+        if sig.is_some() {
+            return sig;
         }
-    });
-    if sig.is_some() {
-        return sig;
+    }
+    // boolean searched CASE whose later WHENs / THENs / ELSE can fail: rewritten to AND/OR, which evaluates them eagerly
+    {
+        let tys: Vec<Ty> = case.cols.iter().map(|c| c.ty).collect();
+        let may_fail = |x: &E| {
+            let mut f = false;
+            x.visit(&mut |n| match n {
+                E::Bin(Op::Div | Op::Mod, l, _) if !ty_of(l, &|i| tys[i as usize]).is_float() => f = true,
+                E::Cast { try_: false, e: inner, to } => {
+                    let from = ty_of(inner, &|i| tys[i as usize]);
+                    let infallible = to.is_str()
+                        || (from == Ty::Bool && to.is_int())
+                        || (from.is_int() && to.is_float())
+                        || (from == Ty::F32 && *to == Ty::F64)
+                        || match (from.int_range(), to.int_range()) {
+                            (Some((a, b)), Some((c, d))) => c <= a && b <= d,
+                            _ => false,
+                        };
+                    if !infallible {
+                        f = true
+                    }
+                }
+                E::Neg(_) | E::Func(..) => f = true,
+                _ => {}
+            });
+            f
+        };
+        e.visit(&mut |n| {
+            if let E::Case { base: None, whens, els } = n {
+                let boolean = whens.first().map(|(_, t)| ty_of(t, &|i| tys[i as usize]) == Ty::Bool).unwrap_or(false);
+                if boolean {
+                    let later = whens.iter().skip(1).any(|(w, _)| may_fail(w)) || whens.iter().any(|(_, t)| may_fail(t)) || els.as_deref().map(|x| may_fail(x)).unwrap_or(false);
+                    if later && sig.is_none() {
+                        sig = Some("boolean-case-loses-laziness".to_string());
+                    }
+                }
+            }
+        });
+        if sig.is_some() {
+            return sig;
+        }
+    }
+    // unary minus of a signed integer together with a guarantee (a column pinned to MIN becomes a literal; NegativeExpr
+    // wraps for arrays but fails for scalars)
+    if !case.mode.guarantees.is_empty() {
+        let tys: Vec<Ty> = case.cols.iter().map(|c| c.ty).collect();
+        e.visit(&mut |n| {
+            if let E::Neg(x) = n {
+                if ty_of(x, &|i| tys[i as usize]).is_signed_int() && sig.is_none() {
+                    sig = Some("negative-scalar-checked-array-wrapping".to_string());
+                }
+            }
+        });
+        if sig.is_some() {
+            return sig;
+        }
+    }
+    // simplify_predicates: a conjunct `literal <op> column`
+    if case.mode.predicates {
+        let mut conj: Vec<&E> = vec![];
+        fn split<'a>(e: &'a E, out: &mut Vec<&'a E>) {
+            if let E::Bin(Op::And, l, r) = e {
+                split(l, out);
+                split(r, out);
+            } else {
+                out.push(e);
+            }
+        }
+        split(e, &mut conj);
+        if conj.len() >= 2 && conj.iter().any(|c| matches!(c, E::Bin(op, l, r) if op.is_cmp() && matches!(**l, E::Lit(..)) && matches!(**r, E::Col(_)))) {
+            return Some("simplify-predicates-literal-left".to_string());
+        }
     }
     e.visit(&mut |n| {
         if let E::Func(f, args) = n {
@@ -434,7 +533,20 @@ fn run_case(case: &Case) -> CaseResult {
             Ok(e) => e,
             Err(e) => return CaseResult::discard(format!("coerce: {}", truncate(&e.to_string(), 60))).label(format!("coerce-error-root:{}", case.expr.kind())),
         };
-        let orig_phys = match plan_expr(&orig, &dfs) {
+        let has_coalesce = {
+            let mut f = false;
+            case.expr.visit(&mut |n| f |= matches!(n, E::Func(Fun::Coalesce | Fun::Nvl, _)));
+            f
+        };
+        let orig_eval = if has_coalesce {
+            match coercer.coerce(to_expr_opt(&case.expr, &case.cols, true), &dfs) {
+                Ok(e) => e,
+                Err(e) => return CaseResult::discard(format!("coerce: {}", truncate(&e.to_string(), 60))),
+            }
+        } else {
+            orig.clone()
+        };
+        let orig_phys = match plan_expr(&orig_eval, &dfs) {
             Ok(p) => p,
             Err(e) => return CaseResult::discard(format!("plan: {}", truncate(&e, 100))).label(format!("plan-error-root:{}", case.expr.kind())),
         };
@@ -583,8 +695,31 @@ fn run_case(case: &Case) -> CaseResult {
                             Ok(p) => p,
                             Err(e) => return fail(format!("simplify_predicates: result does not plan: {e}"), labels, &joined),
                         };
+                        // the order of the conjuncts of a filter is not significant (AND does not promise short-circuiting):
+                        // only rows on which every original conjunct evaluates on its own are compared
+                        let eval_parts = datafusion_expr::utils::split_conjunction_owned(orig_eval.clone());
+                        let mut keep = vec![true; full_batch.num_rows()];
+                        for part in &eval_parts {
+                            let Ok(pp) = plan_expr(part, &dfs) else { continue };
+                            if eval_array(&pp, &full_batch).is_ok() {
+                                continue;
+                            }
+                            for r in 0..full_batch.num_rows() {
+                                if keep[r] && eval_array(&pp, &full_batch.slice(r, 1)).is_err() {
+                                    keep[r] = false;
+                                }
+                            }
+                        }
+                        let pred_batch = if keep.iter().all(|k| *k) {
+                            full_batch.clone()
+                        } else {
+                            match crate::c33::filter_batch(&full_batch, &keep) {
+                                Ok(b) => b,
+                                Err(e) => return CaseResult::discard(format!("filter: {e}")).labels(labels),
+                            }
+                        };
                         let mut stat = Stat::default();
-                        if let Err(m) = compare_exprs("simplify_predicates", &orig_phys, &p, &full_batch, Rel::Truth, &mut stat) {
+                        if let Err(m) = compare_exprs("simplify_predicates", &orig_phys, &p, &pred_batch, Rel::Truth, &mut stat) {
                             if m.starts_with("harness:") {
                                 return CaseResult::discard(m).labels(labels);
                             }
